@@ -159,33 +159,34 @@ func loadKnownFindings() ([]knownFinding, error) {
 }
 
 type harnessEvidence struct {
-	Harness      string         `json:"harness"`
-	Pkg          string         `json:"pkg"`
-	Paths        int            `json:"paths_explored"`
-	Completed    int            `json:"paths_completed"`
-	Crashed      int            `json:"paths_ending_in_panic_or_exit"`
-	Ended        int            `json:"paths_cut_by_assumption"`
-	Aborted      int            `json:"paths_aborted_unsupported"`
-	AbortWhy     map[string]int `json:"abort_reasons,omitempty"`
-	CrashWhy     map[string]int `json:"crash_outcomes,omitempty"`
-	Decisions    int64          `json:"branch_decisions"`
-	Steps        int64          `json:"ssa_instructions_executed"`
-	Goals        map[string]int `json:"goals_discharged_unsat"`
-	Covers       []string       `json:"covers_reached"`
-	CoversMissed []string       `json:"covers_missed,omitempty"`
-	QSat         int            `json:"queries_sat"`
-	QUnsat       int            `json:"queries_unsat"`
-	QUnknown     int            `json:"queries_unknown"`
-	SolverS      float64        `json:"solver_s"`
-	WallS        float64        `json:"wall_s"`
-	Witnesses    int            `json:"witnesses_validated_natively"`
-	WitnessFail  []string       `json:"witness_mismatches,omitempty"`
-	Violations   []string       `json:"violations,omitempty"`
-	Bounds       []string       `json:"bounds,omitempty"`
-	Outside      []string       `json:"outside_bounds,omitempty"`
-	GoalsText    []string       `json:"goals,omitempty"`
-	Truncated    bool           `json:"truncated,omitempty"`
-	MaxVars      int            `json:"max_symbolic_inputs_on_a_path"`
+	Harness       string         `json:"harness"`
+	Pkg           string         `json:"pkg"`
+	Paths         int            `json:"paths_explored"`
+	Completed     int            `json:"paths_completed"`
+	Crashed       int            `json:"paths_ending_in_panic_or_exit"`
+	Ended         int            `json:"paths_cut_by_assumption"`
+	Aborted       int            `json:"paths_aborted_unsupported"`
+	AbortWhy      map[string]int `json:"abort_reasons,omitempty"`
+	CrashWhy      map[string]int `json:"crash_outcomes,omitempty"`
+	Decisions     int64          `json:"branch_decisions"`
+	Steps         int64          `json:"ssa_instructions_executed"`
+	Goals         map[string]int `json:"goals_discharged_unsat"`
+	Covers        []string       `json:"covers_reached"`
+	CoversMissed  []string       `json:"covers_missed,omitempty"`
+	QSat          int            `json:"queries_sat"`
+	QUnsat        int            `json:"queries_unsat"`
+	QUnknown      int            `json:"queries_unknown"`
+	SolverS       float64        `json:"solver_s"`
+	WallS         float64        `json:"wall_s"`
+	Witnesses     int            `json:"witnesses_validated_natively"`
+	WitnessFail   []string       `json:"witness_mismatches,omitempty"`
+	Violations    []string       `json:"violations,omitempty"`
+	Bounds        []string       `json:"bounds,omitempty"`
+	Outside       []string       `json:"outside_bounds,omitempty"`
+	GoalsText     []string       `json:"goals,omitempty"`
+	Truncated     bool           `json:"truncated,omitempty"`
+	MaxVars       int            `json:"max_symbolic_inputs_on_a_path"`
+	BranchUnknown int            `json:"branches_kept_on_unknown_feasibility"`
 }
 
 func cmdCheck(args []string) int {
@@ -329,9 +330,10 @@ func cmdCheck(args []string) int {
 		if hr.Truncated {
 			inconclusive = append(inconclusive, fmt.Sprintf("%s: path budget exhausted", h.Name()))
 		}
-		if hr.Stats.Unknown > 0 || hr.Unknowns > 0 {
-			inconclusive = append(inconclusive, fmt.Sprintf("%s: %d solver queries returned unknown/timeout", h.Name(), hr.Stats.Unknown+hr.Unknowns))
+		if hr.Unknowns > 0 {
+			inconclusive = append(inconclusive, fmt.Sprintf("%s: %d goal/assumption queries returned unknown/timeout", h.Name(), hr.Unknowns))
 		}
+		ev.BranchUnknown = hr.BranchUnknown
 		// aborted paths: allowed only when the harness declares the reason as outside the claim
 		for why, n := range hr.AbortWhy {
 			ok := false
